@@ -35,7 +35,7 @@ def rename_fields(fields, resources=None, regex=True):
                 for sf in schema_fields:
                     sf_name = sf['name']
                     for src, tgt in field_res:
-                        if src.match(sf_name):
+                        if src.fullmatch(sf_name):
                             matched.add(src.pattern)
                             target_name = src.sub(tgt, sf_name)
                             assert target_name not in renamed_fields[res_name],\
